@@ -5,6 +5,6 @@
 EXTENDS Loaders, Json, IOUtils, SequencesExt
 Family == {p \in SplitParams : p.lo < p.hi /\ \E kk \in p.lo..(p.hi - 1) : p.f[kk] > 0}
 ASSUME JsonSerialize(IOEnv.OUT_FILE, SetToSeq(Family))
-CInit == machine = "cases" /\ par = 0 /\ jdd = <<>> /\ k = 0 /\ cols = <<>> /\ todel = <<>> /\ built = 0
+CInit == machine = "cases" /\ par = 0 /\ jdd = <<>> /\ k = 0 /\ cols = <<>> /\ todel = <<>> /\ built = 0 /\ saved = <<>>
 CSpec == CInit /\ [][FALSE]_vars
 =============================================================================
